@@ -70,6 +70,33 @@ Proof.
 Qed.
 Print Assumptions C18_lookup_complete.
 
+(* "the choice depends only on the registered backends, the user and the path": two configurations that agree on the
+   user's own backends, on the shared backends and on which backends are live give the same answer - whatever else is
+   registered, whatever the clock and the other trackers say; in particular a backend of another end user, registered
+   anywhere in the listing, never changes where a request goes *)
+Theorem C18_depends_only : forall trk trk' now now' user path bs bs',
+  for_user user bs = for_user user bs' -> for_user shared_now bs = for_user shared_now bs' ->
+  (forall id, live_now trk now id = live_now trk' now' id) ->
+  lookup_now trk now user path bs = lookup_now trk' now' user path bs'.
+Proof.
+  intros trk trk' now now' user path bs bs' Hu Hs Hl.
+  unfold lookup_now, lookup. rewrite Hu, Hs.
+  destruct (most_specific path (for_user user bs')) as [id|].
+  - fold (live_now trk now id). fold (live_now trk' now' id). rewrite Hl. reflexivity.
+  - destruct (most_specific path (for_user shared_now bs')) as [id|]; [|reflexivity].
+    fold (live_now trk now id). fold (live_now trk' now' id). rewrite Hl. reflexivity.
+Qed.
+Print Assumptions C18_depends_only.
+
+Theorem C18_other_users_irrelevant : forall trk now user path pre b post,
+  euser b <> user -> euser b <> shared_now ->
+  lookup_now trk now user path (pre ++ b :: post) = lookup_now trk now user path (pre ++ post).
+Proof.
+  intros trk now user path pre b post H1 H2.
+  apply C18_depends_only; [apply for_user_other|apply for_user_other|reflexivity]; apply String.eqb_neq; assumption.
+Qed.
+Print Assumptions C18_other_users_irrelevant.
+
 (* non-vacuity: nested, duplicate and empty prefixes *)
 Example C18_example :
   let bs := [ {| bid := "b1"; buser := "a1"; euser := "u"; prefixes := ["/"; "/a/"] |};
